@@ -35,14 +35,15 @@ KINDS = {
     "huawei:multi:vlan-pool": dict(hw="Huawei CE6870", block="vlan pool P1", prefix="vlan", fam="huawei", clear="undo vlan all"),
     "huawei:single:stp-instance": dict(hw="Huawei CE6870", block="stp region-configuration", prefix="instance 1 vlan", fam="huawei",
                                        clear="undo instance 1", max_lines=1),
-    "cisco:swtrunk:allowed-vlan": dict(hw="Cisco Catalyst", block="interface GigabitEthernet1/0/1", prefix="switchport trunk allowed vlan",
+    "cisco:swtrunk:allowed-vlan": dict(hw="Cisco Catalyst 3750", block="interface GigabitEthernet1/0/1", prefix="switchport trunk allowed vlan",
                                        fam="cisco-trunk"),
     "nexus:swtrunk:allowed-vlan": dict(hw="Cisco Nexus", block="interface Ethernet1/1", prefix="switchport trunk allowed vlan", fam="cisco-trunk"),
-    "cisco:simple:vlan": dict(hw="Cisco Catalyst", block=None, prefix="vlan", fam="cisco-simple"),
+    "cisco:simple:vlan": dict(hw="Cisco Catalyst 3750", block=None, prefix="vlan", fam="cisco-simple"),
     "nexus:simple:vlan": dict(hw="Cisco Nexus", block=None, prefix="vlan", fam="cisco-simple"),
-    "cisco:simple:vlan-group": dict(hw="Cisco Catalyst", block=None, prefix="vlan group G1 vlan-list", fam="cisco-simple"),
+    "cisco:simple:vlan-group": dict(hw="Cisco Catalyst 3750", block=None, prefix="vlan group G1 vlan-list", fam="cisco-simple"),
 }
 PRINCIPAL = ["huawei:multi_all:trunk-allow-pass", "nexus:swtrunk:allowed-vlan"]
+QUICK2 = ["huawei:multi_all:hybrid-tagged", "huawei:multi_all:hybrid-untagged", "cisco:simple:vlan", "cisco:simple:vlan-group"]
 # thorough tier: kinds whose splittings are exhaustive on the 8-element universe / on the 7-element universe (others: 6)
 FULL8 = ["huawei:multi_all:trunk-allow-pass"]
 SEVEN = ["nexus:swtrunk:allowed-vlan", "cisco:swtrunk:allowed-vlan", "huawei:multi:vlan-batch", "huawei:multi:vlan-pool",
@@ -446,7 +447,7 @@ def cases(tier, seed, part, nparts):
         small = UNIVERSE7 if (tier != "quick" and kind in SEVEN) else UNIVERSE6
         if tier != "quick" and kind in FULL8:
             continue
-        vs = variants(kind, small, MAX_LINES)
+        vs = variants(kind, small, 2 if (tier == "quick" and kind in QUICK2) else MAX_LINES)
         for o in vs:
             for n in vs:
                 i += 1
@@ -511,10 +512,11 @@ def run(tier="quick", seed=0, part=0, nparts=1):
             if per_key[key] <= 3:
                 failures.append(dict(key=key, text=text, case=case, expected=_j(exp), actual=_j(act)))
     if tier == "quick":
-        scope = ("(A) all pairs of subsets of {2,3,4,10,11,20} x every splitting of each run list over 1..4 lines, all 11 kinds; "
+        scope = ("(A) all pairs of subsets of {2,3,4,10,11,20} x every splitting of each run list over 1..4 lines (1..2 lines for hybrid "
+                 "tagged/untagged, cisco vlan, vlan group), all 11 kinds; "
                  "(B) all 65536 pairs of subsets of {2,3,4,5,10,11,20,30}, one splitting per side rotating with the pair index, for "
                  "huawei trunk allow-pass and nexus swtrunk; ")
-        bound = "subsets of an 8-element universe, 1..4 lines; every splitting on 6 elements (all kinds); 300 random sets per kind to 4094"
+        bound = "subsets of an 8-element universe, 1..4 lines; every splitting on 6 elements (7 kinds to 4 lines, 4 kinds to 2 lines); 300 random sets per kind to 4094"
     else:
         scope = ("(A) all pairs of subsets x every splitting of each run list over 1..4 lines: on {2,3,4,5,10,11,20,30} for huawei trunk "
                  "allow-pass (1277^2), on {2,3,4,10,11,20,30} for nexus/cisco swtrunk, vlan batch, vlan pool, cisco/nexus vlan, on "
